@@ -569,7 +569,16 @@ def comps_hex(p):
 
 def gen_cli(rng):
     """a tree of 1-3 classes of equal files over 2-3 roots (hard links included) + the `group` options"""
-    roots = ["r0", "r1"] + (["r2"] if rng.chance(1, 3) else [])
+    # input roots at DIFFERENT depths, in any order (the order of the arguments is the order of the isolated
+    # roots, hence of the sub-groups); sometimes one root nested in another (first matching root wins)
+    layout = rng.below(4)
+    if layout == 0:
+        roots = ["r0", "r1"] + (["r2"] if rng.chance(1, 3) else [])
+    else:
+        pool = ["r0", "sub/r1", "sub/deeper/r2", "other/x/y/r3"]
+        roots = rng.shuffle(pool)[:2 + rng.below(2)]
+        if layout == 3:
+            roots = rng.shuffle(roots + [roots[0] + "/d"])
     files = []
     for c in range(1 + rng.below(3)):
         content = ("class%d-" % c) * (2 + c)
@@ -592,6 +601,7 @@ def gen_cli(rng):
             prio = prio[1:]
     return {"roots": roots, "files": files, "isolate": isolate, "hlinks": rng.chance(1, 2), "transform": rng.chance(1, 4),
             "mode": mode, "prio": prio,
+            "cli_n": rng.choice([None, None, 1, 2, 3]),       # -n on the dedupe command line (both runs)
             # how the input roots are named: relative to --base-dir, itself relative to the working directory of `group`
             "basedir": rng.choice(["default", "dot", "rel", "rel_nested", "dotdot", "abs"])}
 
@@ -608,11 +618,12 @@ def run_cli(ctx, spec, model_bin, fclones, tree, count=True):
     gcwd, bopts = {"default": (tree, []), "dot": (tree, ["--base-dir", "."]),
                    "rel": (os.path.join(clidir, "w"), ["--base-dir", "tree"]),
                    "rel_nested": (clidir, ["--base-dir", "w/tree"]),
-                   "dotdot": (os.path.join(tree, spec["roots"][0]), ["--base-dir", ".."]),
+                   "dotdot": (os.path.join(tree, spec["roots"][0]),
+                              ["--base-dir", os.path.relpath(tree, os.path.join(tree, spec["roots"][0]))]),
                    "abs": (other, ["--base-dir", tree])}[bmode]
     roots = spec["roots"]
     for r in roots:
-        os.makedirs(os.path.join(tree, r, "d"))
+        os.makedirs(os.path.join(tree, r, "d"), exist_ok=True)
     for f in spec["files"]:
         p = os.path.join(tree, f["rel"])
         if f["link_of"] is not None:
@@ -642,6 +653,9 @@ def run_cli(ctx, spec, model_bin, fclones, tree, count=True):
     popts = []
     for p in prio:
         popts += ["--priority", PRIO_NAMES[p]]
+    cli_n = spec.get("cli_n")
+    if cli_n is not None:
+        popts += ["-n", str(cli_n)]
     env = dict(os.environ, RAYON_NUM_THREADS="2")
     g = sh([fclones, "group"] + bopts + gopts + roots, gcwd, env=env)
     if g.returncode != 0:
@@ -654,7 +668,7 @@ def run_cli(ctx, spec, model_bin, fclones, tree, count=True):
     report_0 = "\n".join(plain)
     a = sh([fclones, "remove", "--dry-run"] + popts, other, stdin=report_h, env=env)
     n_inh = 0 if mode in (3, 4) else (rfo if rfo is not None else 1)
-    xopts = ["-n", str(max(1, n_inh))]
+    xopts = ["-n", str(max(1, n_inh))] if cli_n is None else []
     if isolate:
         for r in roots:
             xopts += ["--isolate", os.path.join(tree, r)]
@@ -696,7 +710,7 @@ def run_cli(ctx, spec, model_bin, fclones, tree, count=True):
                 st.st_ctime_ns // 10 ** 9, st.st_ctime_ns % 10 ** 9))
         hf = "%d %d %s %d %d %d %s %d" % (transform, hlinks, rfo if rfo is not None else "-", mode == 4, mode == 3,
                                          isolate, ",".join(comps_hex(os.path.join(tree, r)) for r in roots), ts_ns)
-        cfg = "rm - 0 0 - %s %d - 0,0,0,0" % (",".join(str(p) for p in prio) or "-", gr["glen"])
+        cfg = "rm %s 0 0 - %s %d - 0,0,0,0" % (cli_n if cli_n is not None else "-", ",".join(str(p) for p in prio) or "-", gr["glen"])
         mlines.append("M " + hf + " # " + cfg + " |" + " ;".join(mem))
     mout = core.run_lines(model_bin, mlines) if mlines else []
     m_merge, m_expl = [], []
@@ -711,11 +725,18 @@ def run_cli(ctx, spec, model_bin, fclones, tree, count=True):
                     tgt.extend(gr["files"][int(i)] for i in d.split(","))
     m_merge.sort()
     m_expl.sort()
+    if cli_n is not None:
+        m_expl = m_merge        # `explicit` of the model takes n from the header; here -n is on both command lines
     if count:
         ctx.count()
         ctx.distinct(("cli", json.dumps(spec, sort_keys=True)), isinstance(ra, list) and len(ra) > 0)
         ctx.bump("cli_group_options", " ".join(gopts) or "(none)")
         ctx.bump("cli_base_dir", bmode)
+        depths = [r.count("/") for r in roots]
+        ctx.bump("cli_root_depths", "nested" if any(a != b and b.startswith(a + "/") for a in roots for b in roots)
+                 else ("equal" if len(set(depths)) == 1 else ("deeper_after_shallower" if any(
+                     depths[i] < depths[j] for i in range(len(roots)) for j in range(i + 1, len(roots))) else "deeper_first")))
+        ctx.bump("cli_n_on_command_line", cli_n)
         ctx.bump("cli_base_dir x isolate", "%s%s" % (bmode, "+isolate" if isolate else ""))
         ctx.bump("cli_removed_files", len(ra) if isinstance(ra, list) else -1)
     rel = lambda l: [x.replace(tree + "/", "") for x in l] if isinstance(l, list) else l
@@ -828,7 +849,7 @@ def run(ctx):
             fails += examine(ctx, ex, res2, mo2, scratch)
             ctx.extra["exhaustive_priority_lists_len_le_2"] = len(ex)
         fclones = core.build_fclones()
-        cli_fails = cli_layer(ctx, model_bin, fclones, ctx.pick(90, 900))
+        cli_fails = cli_layer(ctx, model_bin, fclones, ctx.pick(120, 1200))
         report(ctx, fails, model_bin, scratch, dev2)
         for kind, rec, text in cli_fails[:5]:
             ctx.violation({"kind": kind}, text, rec, found_input=(kind == "inherit_mismatch"))
